@@ -50,7 +50,8 @@ def run(ctx):
         for (param, worker) in pairs:
             wcalls = [n for n in ast.walk(f.node) if isinstance(n, ast.Call) and isinstance(n.func, ast.Name) and n.func.id == worker]
             if not wcalls:
-                ctx.violation("C12.R1", f"{f.qualname}: calls {worker}", f.where(), f"{f.qualname}: no call of {worker}", "entry point no longer goes through the worker")
+                # the work is handed to something else (an object, a renamed worker): not judged, never a verdict
+                ctx.unrecognised("C12.R1", f"{f.qualname}: calls {worker}", f.where(), f"{f.qualname}: no call of {worker}: the entry point no longer goes through the worker this rule follows")
                 continue
             # the parse of this parameter
             mine = [c for c in pcs if c.args and norm(c.args[0]) == param or (isinstance(c.args[0], ast.Name) and _assigned_from(f, c.args[0].id, param))]
